@@ -41,6 +41,25 @@ struct C10 : Scenario {
             double base = 0.7e-3;
             for (auto& cur : c.currents) if (cur > 0) { cur = base; base *= 1.9; }
         }
+        // two transform lengths live in one run (the padded single profile of the radiation field, the padded train of the wake
+        // field); usually the train is longer. A fifth of the multi-bunch runs with a wake choose padding / harmonic number so that
+        // the two lengths coincide, a third so that the single profile is the LONGER one.
+        if (c.currents.size() > 1 && derive(c).has_wake && r.chance(0.5)) {
+            bool equal = r.chance(0.6);
+            Cfg best = c; bool found = false;
+            for (int t = 0; t < 60 && !found; t++) {
+                Cfg k = c;
+                k.H = (double)r.pick(std::vector<long>{50, 184, 400, 800, 1200, r.range(100, 2000)});
+                k.roundpad = r.chance(0.7);
+                for (double pad : {2.0, 3.0, 4.0, 6.0, 8.0, 12.0, 16.0, 24.0, 32.0}) {
+                    k.padding = pad;
+                    Derived dk = derive(k);
+                    if (dk.spacing_ps < 1.0 || dk.wake_nmax > 16000 || dk.padded_bins > 16000) continue;
+                    if (equal ? dk.padded_bins == dk.wake_nmax : dk.padded_bins > dk.wake_nmax) { best = k; found = true; break; }
+                }
+            }
+            if (found) { c = best; p.seti("lencls", equal ? 1 : 2); }
+        }
         if (r.chance(0.3)) { c.tracking = "track.txt"; plan_file(p, "track.txt", gen_tracking(r, c, r.range(1, 4))); }
         if (r.chance(0.15)) { c.impedance = "imp.dat"; Derived d = derive(c); plan_file(p, "imp.dat", gen_impedance(r, (long)d.wake_nmax, 50)); }
         c.to_plan(p);
@@ -356,6 +375,7 @@ struct C10 : Scenario {
         std::string oc = cfg.outstep == 0 ? "never" : cfg.outstep == 1 ? "every" : (unsigned)cfg.outstep > d.laststep ? "beyond" : "n";
         o.probe("cls.nb" + std::to_string(d.nbunches) + "of" + std::to_string(d.nbuckets) + "." + wk + (cfg.shiftx != 0 || cfg.shifty != 0 ? ".shift" : "") +
                 ".rn" + (cfg.renorm < 0 ? "off" : cfg.renorm == 0 ? "init" : "n") + "." + oc + ".ps" + std::to_string(cfg.saveps) + (r.raised.empty() ? "" : ".sigint") + (d.dynamic_rf ? ".dyn" : "") + (cfg.tracking.empty() ? "" : ".trk"));
+        if (plan.geti("lencls", 0) == 1) o.probe("reach.single_profile_length_equals_train_length"); else if (plan.geti("lencls", 0) == 2) o.probe("reach.single_profile_length_exceeds_train_length");
         if (cfg.shiftx != cfg.shifty) o.probe("reach.unequal_shifts");
         if (d.nbunches > 1) o.probe("reach.multibunch");
         if (d.nbuckets > d.nbunches) o.probe("reach.empty_bucket");
